@@ -54,10 +54,14 @@ SCTCases == {Idx("sct", v, t, el, sl, 0) : v \in {0, 1, 255}, t \in 1..5, el \in
        \cup {Idx("sct", 0, 2, el, sl, 0) : el \in 1..6, sl \in {1, 3, 6}}
        \cup (IF Thorough THEN {Idx("sct", v, t, el, sl, 0) : v \in {0, 1, 255}, t \in 1..5, el \in 1..6, sl \in 1..7} ELSE {})
 STHCases == {Idx("sth", v, t, sz, 0, 0) : v \in {0, 1}, t \in 1..5, sz \in 1..5}
+\* fixed-size base64 fields: empty, one byte, short by one, exact, long by one / two, much longer (SHA-384 / SHA-512 sized)
+FixedLens == <<0, 1, 31, 32, 33, 34, 48, 64>>
+OddLens == {0, 1, 31, 33, 34, 48, 64}
+HashCases == {Idx("hash", n, wf, t, 0, 0) : n \in 1..Len(FixedLens), wf \in 0..1, t \in {2, 5}}
 ListCases == {Idx("sctlist", pat, 0, 0, 0, 0) : pat \in 1..Len(ListPatterns)}
         \cup {Idx("sctlist", pat, 1, 0, 0, 0) : pat \in 1..Len(RealLists)}
 BigPattern(pat) == pat >= 9
-Cases == LeafCases \cup {x \in ChainCases : IF BigPattern(x.p1) THEN x.p3 = 1 ELSE (x.p2 = 1 \/ x.p3 = 1)} \cup DSCases \cup SCTCases \cup STHCases \cup ListCases
+Cases == LeafCases \cup {x \in ChainCases : IF BigPattern(x.p1) THEN x.p3 = 1 ELSE (x.p2 = 1 \/ x.p3 = 1)} \cup DSCases \cup SCTCases \cup STHCases \cup ListCases \cup HashCases
 
 (* ---------- mutations: all literal bytes of small structures, the header bytes of big ones ---------- *)
 IsBig(e) == BLen(e) > 100000
@@ -137,7 +141,7 @@ SCTRec(x) ==
       msgs == {[sct_version |-> s.version, id |-> Pay(n, 123), timestamp |-> s.ts, extensions |-> s.ext, signature |-> g.b] :
                  n \in {32}, g \in sigs}
               \cup {[sct_version |-> s.version, id |-> Pay(n, 123), timestamp |-> s.ts, extensions |-> s.ext, signature |-> dse.b] :
-                 n \in IF dse.ok THEN {0, 31, 33} ELSE {}} IN
+                 n \in IF dse.ok THEN OddLens ELSE {}} IN
   [kind |-> "sct", id |-> x, sct |-> s, enc |-> e,
    ins |-> {[m |-> i.m, p |-> i.p, d |-> i.d, b |-> i.b, dec |-> Dec(SCT, i.b), complete |-> Complete(SCT, i.b).ok] : i \in ins},
    msgs |-> {[msg |-> m, tosct |-> ToSCT(m)] : m \in msgs}]
@@ -156,13 +160,27 @@ STHRec(x) ==
       sigs == IF x.p2 = 2 THEN MutationsOf(dse.b, 5, LitsBetween(dse.b, 1, 4)) ELSE {In("valid", 0, 0, dse.b)}
       msgs == {[tree_size |-> sth.size, timestamp |-> sth.ts, sha256_root_hash |-> sth.root, tree_head_signature |-> g.b] : g \in sigs}
               \cup {[tree_size |-> sth.size, timestamp |-> sth.ts, sha256_root_hash |-> Pay(n, 200), tree_head_signature |-> dse.b] :
-                      n \in IF x.p2 = 2 THEN {0, 31, 33} ELSE {}} IN
+                      n \in IF x.p2 = 2 THEN OddLens ELSE {}} IN
   [kind |-> "sth", id |-> x, sth |-> sth, sthinput |-> e, enc |-> whole,
    ins |-> {[m |-> i.m, p |-> i.p, d |-> i.d, b |-> i.b, dec |-> Dec(TreeHeadSignature, i.b)] : i \in ins},
    msgs |-> {[msg |-> m, tosth |-> ToSTH(m)] : m \in msgs}]
 STHLaws(r) == /\ (r.sthinput.ok <=> r.sth.version = 0)
               /\ (r.sthinput.ok => BytesEq(r.sthinput.b, r.enc.b) /\ BLen(r.enc.b) = 50)
               /\ \A i \in r.ins : LawEncDec(TreeHeadSignature, i.b)
+
+(* ---------- fixed-size base64 fields: SHA256Hash on its own and inside the SignedTreeHead JSON object ---------- *)
+HashRec(x) ==
+  LET f == [wf |-> x.p2 = 1, b |-> Pay(FixedLens[x.p1], 160 + x.p1)]
+      good == [wf |-> TRUE, b |-> Pay(32, 200)]
+      dse == EncDigitallySigned([hash |-> 4, sigalg |-> 3, sig |-> Pay(70, 60)])
+      obj(root, id) == [sth_version |-> 0, tree_size |-> TS[x.p3], timestamp |-> TS[2], sha256_root_hash |-> root,
+                        tree_head_signature |-> dse.b, log_id |-> id]
+      objs == {obj(f, good), obj(good, f), obj(f, f)} IN
+  [kind |-> "hash", id |-> x, field |-> f, tohash |-> ToHash(f),
+   objs |-> {[obj |-> o, tosth |-> ToSTHObject(o)] : o \in objs}]
+HashLaws(r) == /\ FixedLossless(r.field, HashSize)
+               /\ (r.tohash.ok <=> (r.field.wf /\ BLen(r.field.b) = 32))
+               /\ \A o \in r.objs : o.tosth.ok <=> (ToHash(o.obj.sha256_root_hash).ok /\ ToHash(o.obj.log_id).ok)
 
 (* ---------- SCT lists ---------- *)
 RealSCT(e, k) == EncSCT([version |-> 0, id |-> Pay(32, 123 + k), ts |-> TS[3], ext |-> Pay(e, 9 + k),
@@ -184,8 +202,10 @@ ListLaws(r) == /\ RoundTrip(SCTList, ChainVal(r.scts)) /\ NoTrailing(SCTList, Ch
 
 CaseRec(x) == CASE x.kind = "leaf" -> LeafRec(x) [] x.kind = "chain" -> ChainRec(x) [] x.kind = "ds" -> DSRec(x)
                 [] x.kind = "sct" -> SCTRec(x) [] x.kind = "sth" -> STHRec(x) [] x.kind = "sctlist" -> ListRec(x)
+                [] x.kind = "hash" -> HashRec(x)
 Laws(x, r) == CASE x.kind = "leaf" -> LeafLaws(r) [] x.kind = "chain" -> ChainLaws(r) [] x.kind = "ds" -> DSLaws(r)
                 [] x.kind = "sct" -> SCTLaws(r) [] x.kind = "sth" -> STHLaws(r) [] x.kind = "sctlist" -> ListLaws(r)
+                [] x.kind = "hash" -> HashLaws(r)
 
 Init == c \in Cases
 Next == UNCHANGED c
